@@ -9,7 +9,7 @@ use crate::report::{Ctx, Report};
 use crate::util;
 
 /// The canonical form of an item as the JSON document should present it.
-fn expect_item(p: &Payload) -> Value {
+pub fn expect_item(p: &Payload) -> Value {
     match p {
         Payload::Origin(o) => json!({
             "type": "routeOrigin",
